@@ -1,4 +1,5 @@
 import Spine.CallbacksConc
+import Spine.CallbacksReent
 import Spine.Generated.Callbacks
 /-!
 # C14 — facts regenerated from spine/feature_local.go on every run (tie b1)
@@ -48,5 +49,61 @@ theorem c14_check_then_act_refuted :
       .atomic (.arrive 100 1 5 true true 3 2)]
     (∀ e ∈ evs, CBC.admitted false e = true) ∧ (CBC.run true evs).core.fired = [⟨0, 100, 3, 2⟩, ⟨1, 100, 3, 2⟩] :=
   CBC.split_registration_witness
+
+/-! ## Where the callbacks run (round 5)
+
+A callback may call back into the feature (the request chain: it registers the follow-up callback). Regenerated: every
+invocation of a function VALUE taken out of a callback registry of FeatureLocal — followed through locals, range
+variables, helper methods / functions and function literals — is either in a spawned goroutine or happens with no
+mutex of the struct held (`invocationSites` lists them). -/
+
+/-- no registered callback (response or result) is invoked on the delivering goroutine while a mutex of the feature —
+    in particular the registry mutex — is held; and the extraction is not empty: invocation sites of both kinds exist -/
+theorem c14_callbacks_run_outside_the_registry_lock :
+    Generated.Callbacks.invocationsAsyncOrUnlocked = true ∧ Generated.Callbacks.noInvocationUnderRegistryMutex = true ∧
+    Generated.Callbacks.invokedUnderLock = [] ∧
+    0 < Generated.Callbacks.responseInvocationSites ∧ 0 < Generated.Callbacks.resultInvocationSites := by decide
+
+/-- the member of `Spine.CBR` the tree under test is -/
+def invocationMode (asyncOrUnlocked : Bool) : CBR.Mode := if asyncOrUnlocked then .outsideLock else .inlineUnderLock
+
+/-- THE RE-ENTRANCY CLAUSE for the code AS REGENERATED, all schedules: n callbacks waiting for the counter, each
+    calling back into the feature as often as it likes (`body`), `regs` goroutines registering at the same time — in
+    every reachable state either everything has returned (delivery, callbacks, registrations) or a step is possible,
+    and the number of steps is bounded: delivery is never blocked by a callback. (If the fact turns false this no
+    longer type-checks; `c14_inline_under_lock_refuted` shows what then happens.) -/
+theorem c14_reentrant_callbacks_never_block_delivery (body : Nat → List CBR.CAct) (n regs : Nat) (ts : List CBR.Thr)
+    (h : CBR.Reach body (CBR.init body (invocationMode Generated.Callbacks.invocationsAsyncOrUnlocked) n regs) ts) :
+    ((∀ th ∈ ts, th.2 = []) ∨ ∃ ts', CBR.Step body ts ts') ∧
+      CBR.wt body ts ≤ CBR.wt body (CBR.init body .outsideLock n regs) := by
+  have hf : invocationMode Generated.Callbacks.invocationsAsyncOrUnlocked = .outsideLock := by decide
+  rw [hf] at h
+  exact CBR.outside_lock_never_blocks body n regs ts h
+
+/-- non-vacuity: one callback that registers its follow-up callback, one concurrent registration: a complete schedule
+    (Lock, go, Unlock by the delivery; Lock, Unlock by the callback; Lock, Unlock by the registration) is reachable and
+    ends with everything returned -/
+example :
+    let body : Nat → List CBR.CAct := fun _ => [.reenter]
+    CBR.Reach body (CBR.init body (invocationMode Generated.Callbacks.invocationsAsyncOrUnlocked) 1 1)
+      [(false, []), (false, []), (false, [])] := by
+  intro body
+  have hf : invocationMode Generated.Callbacks.invocationsAsyncOrUnlocked = .outsideLock := by decide
+  rw [hf]
+  have s1 := CBR.Step.acq (body := body) [] [(false, [.acq, .rel])] [.spawn 0, .rel] (by simp)
+  have s2 := CBR.Step.spawn (body := body) [] [(false, [.acq, .rel])] true 0 [.rel]
+  have s3 := CBR.Step.rel (body := body) [] [(false, [.acq, .rel]), (false, [.acq, .rel])] true []
+  have s4 := CBR.Step.acq (body := body) [(false, []), (false, [.acq, .rel])] [] [.rel] (by simp)
+  have s5 := CBR.Step.rel (body := body) [(false, []), (false, [.acq, .rel])] [] true []
+  have s6 := CBR.Step.acq (body := body) [(false, [])] [(false, [])] [.rel] (by simp)
+  have s7 := CBR.Step.rel (body := body) [(false, [])] [(false, [])] true []
+  exact (((((((CBR.Reach.refl.step s1).step s2).step s3).step s4).step s5).step s6).step s7)
+
+/-- REFUTED for a callback invoked directly before the Unlock (the 'single waiter fast path'): one callback that
+    registers its follow-up callback — after the delivery's Lock no thread can ever move again -/
+theorem c14_inline_under_lock_refuted :
+    let body : Nat → List CBR.CAct := fun _ => [.reenter]
+    ∃ ts, CBR.Reach body (CBR.init body (invocationMode false) 1 1) ts ∧ CBR.Stuck body ts :=
+  CBR.inline_under_lock_stuck
 
 end Spine.Props.C14Gen
